@@ -6,6 +6,7 @@ A *case* is a JSON-able dict:
              target is the content; the string '{SB}' in a target stands for the absolute sandbox path)
   via_link : construct LocalStorage through the symlink SB/rootlink -> store
   gitignore: with_gitignore argument
+  ctor     : abs_str (default) | abs_path | rel_str | rel_path - how the directory is named to the constructor
   op       : exists | delete | fh | find_keys
   key, fn, mode : strings ('{SB}' substituted)
 The sandbox is  TOP/w/x = SB  (TOP from tempfile.mkdtemp), the storage root SB/store, canaries in
@@ -295,12 +296,25 @@ class Sandbox:
             else:
                 os.unlink(p)
         os.makedirs(self.sb)
+        os.chdir(self.top)   # (the previous case's working directory may be gone)
+        # ctor: how the directory is named to the constructor: abs_str | abs_path | rel_str | rel_path.
+        # A relative name is given while SB is the working directory; the operations then run with
+        # another working directory (SB/.., which gets a decoy copy of the store): the storage
+        # directory is the one the object was constructed for.
+        ctor = case.get('ctor', 'abs_str')
+        name = 'rootlink' if case.get('via_link') else 'store'
         if case.get('via_link'):
             os.symlink('store', os.path.join(self.sb, 'rootlink'))
             os.mkdir(self.root)
-            st = LocalStorage(os.path.join(self.sb, 'rootlink'), with_gitignore=case.get('gitignore', True))
+        if ctor.startswith('rel'):
+            os.chdir(self.sb)
+            arg = name
         else:
-            st = LocalStorage(self.root, with_gitignore=case.get('gitignore', True))
+            arg = os.path.join(self.sb, name)
+        if ctor.endswith('path'):
+            import pathlib
+            arg = pathlib.Path(arg)
+        st = LocalStorage(arg, with_gitignore=case.get('gitignore', True))
         for rel, kind, tgt in case['layout']:
             p = os.path.join(self.sb, rel)
             if kind == 'd':
@@ -310,6 +324,12 @@ class Sandbox:
                     f.write(tgt)
             else:
                 os.symlink(self.sub(tgt), p)
+        if ctor.startswith('rel'):
+            up = os.path.dirname(self.sb)
+            shutil.copytree(self.root, os.path.join(up, 'store'), symlinks=True)
+            if case.get('via_link'):
+                os.symlink('store', os.path.join(up, 'rootlink'))
+            os.chdir(up)
         return st
 
     def snapshot(self):
